@@ -743,6 +743,13 @@ def run_cases(rep, cases, evalfn, shrinkfn=None, nproc=None, known=None, isolate
         for sk, sv in (out.get("stats") or {}).items():      # optional per-case counters, summed
             rep.dist["stat:" + sk] = rep.dist.get("stat:" + sk, 0) + sv
         detail = out.get("detail")
+        if isinstance(detail, dict) and detail.get("kind") == "hp-replay-failed":
+            # (harness/hpnum.py) the high-precision replay could not EXECUTE the kernel source of the working tree:
+            # a broken correspondence (reported once or twice, flagged no-failing-input-found), not a value verdict;
+            # all float streams of the run have been evaluated by now
+            if sum(1 for v in rep.violations if v[1] == "correspondence") < 2:
+                rep.violation(case, detail, kind="correspondence")
+            continue
         if detail is not None:
             if known is not None:
                 k = known(case, detail)
